@@ -274,6 +274,7 @@ func (f *flow) Start(ctx context.Context) {
 	sender := f.tracer.RegisterSender()
 	go func() {
 		defer sender.Done()
+		verifAt("flow.start", f.id)
 		f.tracer.Send(NewFlowTrace{FlowId: f.id})
 		defer f.flowWaitGroup.Done()
 		f.tracer.Send(VisitTrace{Node: f.current.Element()})
@@ -294,6 +295,7 @@ func (f *flow) Start(ctx context.Context) {
 					goto await
 				}
 			case action := <-f.current.NextAction(ctx, f):
+				verifAt("flow.action", f.id)
 				if f.actionTransformer != nil {
 					action = f.actionTransformer(f.sequenceFlowId, action)
 				}
@@ -402,6 +404,7 @@ func (f *flow) Start(ctx context.Context) {
 						}
 
 						if len(effectiveFlows) > 0 {
+							verifAt("flow.flowtrace", f.id)
 							f.tracer.Send(FlowTrace{
 								Source: source,
 								Flows:  effectiveFlows,
